@@ -224,6 +224,67 @@ Section PegLemmas.
     intros [n H] [n' H']. rewrite <- (H (Nat.max n n')), <- (H' (Nat.max n n')) by lia. reflexivity.
   Qed.
 
+  (* ---- more fuel never changes an answer other than "out of fuel" ---- *)
+  Lemma fuel_step : forall f,
+    (forall e a s r, run f e a s = r -> r <> PFuel -> run (S f) e a s = r) /\
+    (forall x a s r, rep f x a s = r -> r <> PFuel -> rep (S f) x a s = r) /\
+    (forall a s r, skipw f a s = r -> r <> PFuel -> skipw (S f) a s = r).
+  Proof.
+    induction f as [|f [IHr [IHp IHs]]].
+    - repeat split; intros; cbn in *; congruence.
+    - assert (Hr : forall e a s r, run (S f) e a s = r -> r <> PFuel -> run (S (S f)) e a s = r).
+      { intros e a s r H Hn. destruct e.
+        + rewrite run_str in *. exact H.
+        + exact H.
+        + rewrite run_any in *. exact H.
+        + rewrite run_soi in *. exact H.
+        + rewrite run_eoi in *. exact H.
+        + rewrite run_class in *. exact H.
+        + rewrite run_ref in *. destruct (find_rule G rule); [|exact H].
+          destruct (run f (pr_body p) (enter (pr_mod p) rule a) s) eqn:E1; try (subst; congruence);
+            rewrite (IHr _ _ _ _ E1) by congruence; exact H.
+        + rewrite run_seq in *.
+          destruct (run f e1 a s) eqn:E1; try (subst; congruence); rewrite (IHr _ _ _ _ E1) by congruence; [exact H | exact H |].
+          destruct (skipw f a rest) eqn:E2; try (subst; congruence); rewrite (IHs _ _ _ E2) by congruence; [exact H | exact H |].
+          destruct (run f e2 a rest0) eqn:E3; try (subst; congruence); rewrite (IHr _ _ _ _ E3) by congruence; exact H.
+        + rewrite run_choice in *.
+          destruct (run f e1 a s) eqn:E1; try (subst; congruence); rewrite (IHr _ _ _ _ E1) by congruence; [|exact H|exact H].
+          now apply IHr.
+        + rewrite run_star in *.
+          destruct (run f e a s) eqn:E1; try (subst; congruence); rewrite (IHr _ _ _ _ E1) by congruence; [exact H | exact H |].
+          destruct (rep f e a rest) eqn:E2; try (subst; congruence); rewrite (IHp _ _ _ _ E2) by congruence; exact H.
+        + rewrite run_plus in *. now apply IHr.
+        + rewrite run_opt in *.
+          destruct (run f e a s) eqn:E1; try (subst; congruence); rewrite (IHr _ _ _ _ E1) by congruence; exact H.
+        + rewrite run_not in *.
+          destruct (run f e a s) eqn:E1; try (subst; congruence); rewrite (IHr _ _ _ _ E1) by congruence; exact H.
+        + rewrite run_and in *.
+          destruct (run f e a s) eqn:E1; try (subst; congruence); rewrite (IHr _ _ _ _ E1) by congruence; exact H. }
+      assert (Hs : forall a s r, skipw (S f) a s = r -> r <> PFuel -> skipw (S (S f)) a s = r).
+      { intros a s r H Hn. rewrite skipw_S in *. destruct a; [|exact H|exact H]. destruct (has_ws G); [|exact H].
+        destruct (run f (PRef ws_name) NonAtomic s) eqn:E1; try (subst; congruence);
+          rewrite (IHr _ _ _ _ E1) by congruence; [exact H | exact H |].
+        destruct (skipw f NonAtomic rest) eqn:E2; try (subst; congruence); rewrite (IHs _ _ _ E2) by congruence; exact H. }
+      split; [exact Hr | split; [|exact Hs]].
+      intros x a s r H Hn. rewrite rep_S in *.
+      destruct (skipw f a s) eqn:E1; try (subst; congruence); rewrite (IHs _ _ _ E1) by congruence; [exact H | exact H |].
+      destruct (run f x a rest) eqn:E2; try (subst; congruence); rewrite (IHr _ _ _ _ E2) by congruence; [exact H | exact H |].
+      destruct (rep f x a rest0) eqn:E3; try (subst; congruence); rewrite (IHp _ _ _ _ E3) by congruence; exact H.
+  Qed.
+
+  Lemma run_mono f f' e a s r : (f <= f')%nat -> run f e a s = r -> r <> PFuel -> run f' e a s = r.
+  Proof.
+    intros Hle. induction Hle as [|f' Hle IH]; [auto|]. intros H Hn. apply (proj1 (fuel_step f')); auto.
+  Qed.
+
+  (* hence: a value reached with enough fuel is the only answer any amount of fuel can give, besides PFuel *)
+  Lemma evals_any_fuel e a s r f : evals e a s r -> r <> PFuel -> run f e a s = r \/ run f e a s = PFuel.
+  Proof.
+    intros [n H] Hn. destruct (run f e a s) eqn:E1; [left|now right|left|left];
+      rewrite <- (H (Nat.max n f) (Nat.le_max_l _ _));
+      symmetry; apply (run_mono f (Nat.max n f)); try (apply Nat.le_max_r); try exact E1; congruence.
+  Qed.
+
   (* the text a rule node records, when the input is a known prefix followed by the remaining input *)
   Lemma consumed_app (p k : str) : consumed (p ++ k) k = p.
   Proof.
